@@ -1120,8 +1120,36 @@ pub fn units() -> Vec<Unit> {
             Fn("write_mic"),
         ],
     },
+    // ---- builder D2 (tie A for the bank walk of the fixed plans, C09 / C04)
+    // `JoinChannels::get_next_channel` and `AvailableChannels::{is_exhausted, reset, get_next_channel_inner, get_next}`
+    // (the entropy loop runs on `Rt.loopM`); types, generator and fuel are those of `Gen.PlanSelectFn`.
+    Unit {
+        module: "Gen.JoinWalkFn",
+        file: "lorawan-device/src/region/fixed_channel_plans/join_channels.rs",
+        more_files: vec!["lorawan-device/src/region/mod.rs", "lorawan-device/src/region/constants.rs", "lorawan-device/src/mac/mod.rs", "lorawan-encoding/src/types.rs", "lorawan-device/src/region/fixed_channel_plans/mod.rs", "lorawan-device/src/region/dynamic_channel_plans/mod.rs"],
+        imports: vec!["LoraVerif.Gen.Modulation", "LoraVerif.Gen.Region", "LoraVerif.Gen.ChannelMaskFn", "LoraVerif.Gen.PlanSelectFn"],
+        items: vec![
+            ExternUnit("Gen.PlanSelectFn"),
+            Raw(JOIN_WALK_RAW),
+            ExternStructRaw("AvailableChannels", &[("data", "ChannelMask<9>"), ("previous", "Option<u8>")]),
+            ExternFn("ChannelMask::default", "ChannelMask.default9", &[], "ChannelMask<9>"),
+            ExternFn("ChannelMask::as_ref", "ChannelMask.as_ref", &[("self", "ChannelMask<9>")], "[u8]"),
+            Fn("AvailableChannels::is_exhausted"),
+            Fn("AvailableChannels::reset"),
+            Fn("AvailableChannels::get_next_channel_inner"),
+            Fn("AvailableChannels::get_next"),
+            Fn("JoinChannels::get_next_channel"),
+        ],
+    },
     ]
 }
+
+/// Lean text of the abstract part of `Gen.JoinWalkFn` (builder D2): the generator and the fuel of `Gen.PlanSelectFn`
+const JOIN_WALK_RAW: &str = r#"variable {RNG : Type} [RngCore RNG] [LoopFuel]
+/-- TRUSTED (hand text): `impl Default for ChannelMask<9>` = `ChannelMask([0xFF; 9])` and `AsRef<[u8]>` = the bytes -/
+def ChannelMask.default9 : ChannelMask := ⟨List.replicate 9 255⟩
+def ChannelMask.as_ref (self : ChannelMask) : List Int := self._0
+"#;
 
 /// Lean text of the abstract part of `Gen.MacTopFn`
 const MAC_TOP_RAW1: &str = r#"set_option warn.classDefReducibility false
